@@ -624,11 +624,13 @@ Definition fmt_derivation_paths (paths : list (list step)) : list tok :=
              | [] => TStep child
              end) (combine (seq 0%nat (length p0)) p0)
   end.
+(* Wildcard's Display: nothing, "/*" or "/*h" *)
+Definition wild_toks (w : wildcard) : list tok := match w with WNone => [] | _ => [TWild w] end.
 Definition print_key_path (k : dkey) : list tok :=
   match k with
   | KSingle _ _ => []
-  | KXpub _ _ p w => map TStep p ++ [TWild w]
-  | KMulti _ _ ps w => fmt_derivation_paths ps ++ [TWild w]
+  | KXpub _ _ p w => map TStep p ++ wild_toks w
+  | KMulti _ _ ps w => fmt_derivation_paths ps ++ wild_toks w
   end.
 (* textual selection of alternative i in a printed path *)
 Definition select_tok (i : nat) (t : tok) : tok :=
@@ -658,3 +660,74 @@ Section Find.
       end
     else find_loop range d target.
 End Find.
+
+(* ---- parsing the path part of an extended key (parse_xkey_deriv and the xpub arm of
+        DescriptorPublicKey::from_str) over the same tokens ----
+   The text after the xpub is a list of '/'-separated components: a plain index (TStep), a
+   BIP389 tuple <a;b;..> (TAlts), "*" / "*h" (TWild).  The iterator is lazy, so the first
+   offending component in text order decides the error. *)
+Inductive perr :=
+| PInvalidWildcard        (* InvalidWildcardInDerivationPath: something follows the wildcard *)
+| PMultipleSteps          (* MultipleDerivationPathIndexSteps: a second tuple *)
+| PInvalidMultiIndexStep  (* InvalidMultiIndexStep: fewer than two indexes, or (since /repo
+                             109461ce) an index listed twice *)
+| PTooLong.               (* DerivationPathTooLong (since /repo fc4edba4, dda43848) *)
+Inductive pres (A : Type) := POk (a : A) | PErr (e : perr).
+Arguments POk {A} a. Arguments PErr {A} e.
+Definition perr_eqb (a b : perr) : bool :=
+  match a, b with
+  | PInvalidWildcard, PInvalidWildcard | PMultipleSteps, PMultipleSteps
+  | PInvalidMultiIndexStep, PInvalidMultiIndexStep | PTooLong, PTooLong => true
+  | _, _ => false
+  end.
+
+(* `(1..idx.len()).any(|i| idx[..i].contains(&idx[i]))` *)
+Fixpoint has_dup_from (seen l : list step) : bool :=
+  match l with
+  | [] => false
+  | x :: r => existsb (step_eqb x) seen || has_dup_from (seen ++ [x]) r
+  end.
+Definition tuple_has_dup (l : list step) : bool := has_dup_from [] l.
+
+(* state: wildcard seen so far, whether a tuple was seen, the paths built so far *)
+Fixpoint parse_steps (toks : list tok) (w : wildcard) (multi : bool) (paths : list (list step))
+  : pres (list (list step) * wildcard) :=
+  match toks with
+  | [] => POk (paths, w)
+  | t :: r =>
+      match w with
+      | WNone =>
+          match t with
+          | TWild WUnhardened => parse_steps r WUnhardened multi paths
+          | TWild WHardened => parse_steps r WHardened multi paths
+          | TWild WNone => PErr PInvalidWildcard        (* no such component in the text *)
+          | TAlts l =>
+              if multi then PErr PMultipleSteps
+              else if Nat.ltb (length l) 2 then PErr PInvalidMultiIndexStep
+              else if tuple_has_dup l then PErr PInvalidMultiIndexStep
+              else parse_steps r w true (expand_step paths l)
+          | TStep s => parse_steps r w multi (expand_step paths [s])
+          end
+      | _ => PErr PInvalidWildcard
+      end
+  end.
+Definition parse_xkey_deriv (toks : list tok) : pres (list (list step) * wildcard) :=
+  parse_steps toks WNone false [].
+
+(* the xpub arm of DescriptorPublicKey::from_str; depth = the xpub's own BIP32 depth *)
+Definition wildcard_steps (w : wildcard) : N := match w with WNone => 0 | _ => 1 end.
+Definition parse_xpub_key (o : origin) (x : N) (depth : N) (toks : list tok) : pres dkey :=
+  match parse_xkey_deriv toks with
+  | PErr e => PErr e
+  | POk (paths, w) =>
+      (* /repo dda43848: without explicit steps there is no path in the list, but the
+         wildcard still is a derivation step *)
+      let too_deep := fun len : nat => N.ltb 255 (depth + N.of_nat len + wildcard_steps w) in
+      if existsb (fun p => too_deep (length p)) paths
+         || match paths with [] => too_deep 0%nat | _ => false end
+      then PErr PTooLong
+      else match paths with
+           | _ :: _ :: _ => POk (KMulti o x paths w)
+           | _ => POk (KXpub o x (hd [] paths) w)
+           end
+  end.
